@@ -4,7 +4,7 @@ from collections import Counter
 from hypothesis import strategies as st
 
 from vlib.core import Sub, Failure
-from vlib import env, configs
+from vlib import env, configs, canary
 
 pytrs = env.import_pytrs()
 from pytrs import PLSSDesc, Tract  # noqa: E402
@@ -16,7 +16,10 @@ RULE = (
     "description-level flags (multi-sections, exception/depth wording, unused text). Operations: parse(commit True|False, "
     "keyword overrides), parse_tracts(keywords | config), preprocess(commit), config assignment, sort_tracts, filter_errors. "
     "After every step the harness compares a deep snapshot of all public attributes with (a) the snapshot before, for "
-    "commit=False calls, (b) a freshly constructed object given the accumulated settings and the same final call. "
+    "commit=False calls, (b) a freshly constructed object given the accumulated settings and the same final call, (c) the snapshot taken "
+    "at an earlier committed parse of the same object under the same effective settings; after every history a fixed set of canary parses "
+    "(OCR-mangled, direction-less, colon-less, sec_within, segmented texts; tracts under several settings) must still give what they gave "
+    "before the first history ran in the process. "
     "Non-trivial: >= 2 committed parses and >= 1 non-committed call on an object that carries at least one flag. "
     "Distinct = distinct (text, history)."
 )
@@ -65,7 +68,7 @@ def plss_text(draw):
         sec = draw(st.sampled_from(SEC_LISTS)).format(a=a, b=a + 2)
         a += 4
         parts.append(f"{sec}: {draw(st.sampled_from(FLAGGY_BLOCKS))}")
-    tr = draw(st.sampled_from(["T154N-R97W", "Township 154 North, Range 97 West", "T154-R97W"]))
+    tr = draw(st.sampled_from(["T154N-R97W", "Township 154 North, Range 97 West", "T154-R97W", "TI54N-R97W", "Township lS4 North, Range 97 West"]))
     text = tr + draw(st.sampled_from([" ", "\n"])) + draw(st.sampled_from(["\n", ", ", "; "])).join(parts)
     if draw(st.integers(0, 4)) == 0:
         text = "Stray words " + text
@@ -149,13 +152,15 @@ _last = {}
 
 
 def oracle_plss(c):
+    canary.arm()
     text = c["text"]
     accum = dict(c["init"])
     d = PLSSDesc(text, config=configs.to_text(accum))
     fails = []
+    seen = {}          # effective settings of a committed parse -> what the object looked like then
     last_parse_kw = {}
     parse_cfg = dict(accum)          # the settings that were in force at the last committed parse
-    tract_accum, tracts_kw, sort_key = {}, None, None
+    tract_accum, tracts_kw, sort_keys = {}, None, []
     pp_recommitted = False           # preprocess(commit=True) since the last committed parse
     committed, noncommitted = 1, 0
     had_flags = False
@@ -169,8 +174,8 @@ def oracle_plss(c):
                 f.parse_tracts(config=configs.to_text(tract_accum), **kw)
             else:
                 f.parse_tracts(**kw)
-        if sort_key:
-            f.sort_tracts(sort_key)
+        for sk in sort_keys:          # stable sorts: earlier ones decide the ties of later ones
+            f.sort_tracts(sk)
         if pp_recommitted:
             f.config = configs.to_text(accum)
             f.preprocess(commit=True)
@@ -195,10 +200,20 @@ def oracle_plss(c):
                 d.parse(**kw)
                 parse_cfg = dict(accum)
                 pp_recommitted = False
-                last_parse_kw, tract_accum, tracts_kw, sort_key = kw, {}, None, None
+                last_parse_kw, tract_accum, tracts_kw, sort_keys = kw, {}, None, []
                 committed += 1
                 if not compare(i, "parse"):
                     break
+                # the same settings as at an earlier committed parse of this object: the same results
+                key = repr((sorted(parse_cfg.items()), sorted(kw.items())))
+                now = observable_plss(plss_snap(d))
+                if key in seen:
+                    diff = first_diff(seen[key], now)
+                    if diff:
+                        fails.append(Failure("plss_same_settings_other_result", f"step {i}: parse({kw}) under settings used before on this object now differs at {diff}",
+                                             text=text, ops=c["ops"][:i + 1], init=c["init"]))
+                        break
+                seen[key] = now
                 # immediately again with the same arguments: nothing may change
                 snap1 = plss_snap(d)
                 d.parse(**kw)
@@ -260,8 +275,8 @@ def oracle_plss(c):
                 if before[k] != after[k]:
                     fails.append(Failure("plss_config_assignment_changes_results", f"step {i}: assigning .config changed {k}", text=text, ops=c["ops"][:i + 1]))
         elif name == "sort":
-            sort_key = op[1]
-            d.sort_tracts(sort_key)
+            sort_keys = sort_keys + [op[1]]
+            d.sort_tracts(op[1])
             if sorted(t["id"] for t in before["tracts"]) != sorted(id(t) for t in d.tracts):
                 fails.append(Failure("plss_sort_changes_membership", f"step {i}: sort_tracts changed which tracts are held", text=text, ops=c["ops"][:i + 1]))
         elif name == "filter_errors":
@@ -274,10 +289,15 @@ def oracle_plss(c):
             break
     _last["nt"] = committed >= 2 and noncommitted >= 1 and had_flags
     _last["ops"] = {op[0] for op in c["ops"]}
+    if not fails:
+        ch = canary.changed()
+        if ch:
+            fails.append(Failure("plss_history_left_state_behind", f"after this history on {text!r} unrelated parses changed: {ch}", text=text, ops=c["ops"], init=c["init"]))
     return fails
 
 
 def oracle_tract(c):
+    canary.arm()
     text = c["text"]
     accum = dict(c["init"])
     inherited_w = [("well", "<inherited context>")] if c["inherited"] else []
@@ -348,6 +368,10 @@ def oracle_tract(c):
             break
     _last["nt"] = committed >= 2 and noncommitted >= 1 and had_flags
     _last["ops"] = {op[0] for op in c["ops"]}
+    if not fails:
+        ch = canary.changed()
+        if ch:
+            fails.append(Failure("tract_history_left_state_behind", f"after this history on {text!r} unrelated parses changed: {ch}", text=text, ops=c["ops"], init=c["init"]))
     return fails
 
 
